@@ -22,6 +22,54 @@ def make(cfg):
     return c01.make(cfg)
 
 
+def make_diag_flag(cfg):
+    """`check_diagonal` decides whether a factor is decomposed at all (a "diagonal" factor gets the identity as its basis): it must answer True exactly
+    when every off-diagonal entry is zero -- for every scale of the entries."""
+    n = cfg["n"]
+
+    def fn():
+        import numpy as np
+        import torch
+        import z3
+        import matrix_functions as M
+        from checks import mf
+        from vlib import symx
+
+        info = dict(signature=dict(kind="check-diagonal"), cfg=cfg)
+        A = mf.sym_matrix("a", n, symmetric=cfg.get("symmetric", True))
+        r = M.check_diagonal(mf.tens(A, torch.float32))
+        off = [A[i, j].n for i in range(n) for j in range(n) if i != j]
+        symx.CTX.events.append(f"check_diagonal -> {bool(r)}")
+        if bool(r):
+            symx.prove("a matrix reported diagonal has no non-zero off-diagonal entry", z3.And(*[x == 0 for x in off]) if off else True, info)
+        else:
+            symx.prove("a matrix reported non-diagonal has a non-zero off-diagonal entry", z3.Or(*[x != 0 for x in off]) if off else False, info)
+        return "diag" if bool(r) else "dense"
+
+    return fn, dict(query_timeout_ms=20000, no_pins=True)
+
+
+def check_diagonal_real():
+    """Real torch: exact zero test at every scale (float32 and float64)."""
+    import torch
+    import matrix_functions as M
+
+    probs, n = [], 0
+    for dt in (torch.float32, torch.float64):
+        for scale in (1.0, 1e-5, 1e-9, 1e-20, 1e5):
+            for size in (2, 3):
+                D = torch.diag(torch.arange(1, size + 1, dtype=dt)) * scale
+                E = D.clone()
+                E[0, size - 1] = scale * 0.5
+                E[size - 1, 0] = scale * 0.5
+                n += 2
+                if not M.check_diagonal(D):
+                    probs.append(f"diagonal matrix at scale {scale} ({dt}) reported non-diagonal")
+                if M.check_diagonal(E):
+                    probs.append(f"matrix with off-diagonal entries {scale * 0.5} ({dt}) reported diagonal")
+    return n, probs
+
+
 def jobs_for(tier):
     jobs = []
     n = 0
@@ -76,8 +124,36 @@ def run(tier, seed, argv):
                        "real arithmetic; dtypes are tags with torch's promotion / mismatch rules for the operations used", "generic equality regime except one all-regime job per method"]
     rep.validate_standin(6 if tier == "quick" else 24)
     rep.absorb("soap-reference", par.run_jobs(jobs, chunk=6), soft=lambda j: j.startswith("r"))
+    # the diagonality flag that short-circuits the basis computation (the optimizer-level runs follow the non-diagonal side of it only)
+    dj = [dict(id=f"k{i}", module="checks.c03", factory="make_diag_flag", cfg=dict(n=n_, symmetric=sym)) for i, (n_, sym) in enumerate(((2, True), (3, True), (2, False)))]
+    rep.absorb("diagonality-flag", par.run_jobs(dj, chunk=8))
+    nreal, preal = check_diagonal_real_in_subprocess()
+    rep.extra["check_diagonal_real_cases"] = nreal
+    if preal:
+        rep.violations.append(dict(label=f"check_diagonal on the real build: {preal[0]}", info=dict(signature=dict(kind="check-diagonal-real"), cfg={}), model={}, job="concrete"))
     return rep.finish("checks.c03")
 
 
+def check_diagonal_real_in_subprocess():
+    import json
+    import os
+    import subprocess
+    from vlib.report import PY, ROOT
+
+    env = dict(os.environ)
+    env["PYTHONPATH"] = f"{ROOT}:/repo"
+    env["OMP_NUM_THREADS"] = "1"
+    p = subprocess.run([PY, "-c", "import json, logging; logging.disable(50); from checks import c03; print(json.dumps(c03.check_diagonal_real()))"], env=env, capture_output=True, text=True, timeout=300)
+    try:
+        n, probs = json.loads(p.stdout.strip().splitlines()[-1])
+        return n, probs
+    except Exception:
+        return 0, [f"could not run: {(p.stderr or '')[-200:]}"]
+
+
 def replay(record):
+    kind = ((record.get("info") or {}).get("signature") or {}).get("kind")
+    if kind in ("check-diagonal", "check-diagonal-real"):
+        n, probs = check_diagonal_real()
+        return bool(probs), f"{n} matrices on the real build: {probs[:2] or 'exact zero test at every scale'}"
     return H.replay_record(record, make)
